@@ -43,6 +43,26 @@ pub mod scope_analyzer;
 pub mod statement;
 pub mod visitor;
 
+/// Verification hooks (only compiled with `--cfg boa_verif`); inert unless turned on.
+#[cfg(boa_verif)]
+pub mod verif {
+    use std::cell::Cell;
+
+    thread_local! {
+        static FORCE_ESCAPE: Cell<bool> = const { Cell::new(false) };
+    }
+
+    /// Forces every binding created afterwards on this thread to live in an environment
+    /// (never in a frame register).
+    pub fn set_force_escape(on: bool) {
+        FORCE_ESCAPE.with(|c| c.set(on));
+    }
+
+    pub(crate) fn force_escape() -> bool {
+        FORCE_ESCAPE.with(Cell::get)
+    }
+}
+
 use boa_interner::{Interner, Sym, ToIndentedString, ToInternedString};
 use boa_string::{JsStr, JsString};
 use expression::Identifier;
